@@ -181,8 +181,8 @@ def tlc_instances(ctx):
     else:
         groups.append((pc.spans_instances(ctx, "spans_a3", 3, 2, 3), None))
         groups.append((pc.spans_instances(ctx, "spans_b", 4, 2, 2), None))
-        groups.append((pc.spans_instances(ctx, "spans_c", 4, 3, 2), 5000))
-        groups.append((pc.spans_instances(ctx, "spans_d", 3, 2, 4, need_missing=True), 4000))
+        groups.append((pc.spans_instances(ctx, "spans_c", 4, 3, 2), 3000))
+        groups.append((pc.spans_instances(ctx, "spans_d", 3, 2, 4, need_missing=True), 2500))
         groups.append((pc.spans_instances(ctx, "spans_s", 4, 3, 3, simulate=3000), None))
         groups.append((pc.spans_instances(ctx, "spans_t", 5, 3, 3, simulate=1500), None))
     out = []
@@ -229,10 +229,7 @@ def replay(ctx, body):
     if inst.get("kind") == "tlc":
         replay_instance(ctx, inst)
         return
-    gen = inst.get("gen")
-    if gen in ("sim", "missing"):
-        ts = build.sim(n=inst["n"], L=1000, rho=2e-4, mu=1e-3, Ne=100, seed=inst["sim_seed"])
-        # rho is part of the seeded corpus; regenerate the corpus and pick by name
+    # simulated inputs are part of the seeded corpus: regenerate it (ctx carries the seed and tier) and pick by name
     for name, ts, info in sim_corpus(ctx):
         if name == inst.get("name"):
             check_simulated(ctx, name, ts, info)
